@@ -1,0 +1,39 @@
+//go:build verif
+
+// Package verifhook re-exports internal packages for the verification harness under /verif.
+// Compiled only with -tags verif.
+package verifhook
+
+import (
+	"os"
+
+	"github.com/akrennmair/updog"
+	"github.com/akrennmair/updog/internal/convert"
+	"github.com/akrennmair/updog/internal/openfile"
+	"github.com/akrennmair/updog/internal/queryparser"
+	proto "github.com/akrennmair/updog/proto/updog/v1"
+)
+
+func ParseQuery(q string) (*proto.Query, error) { return queryparser.ParseQuery(q) }
+
+func QueryToString(q *proto.Query) string { return queryparser.QueryToString(q) }
+
+func ReplacePlaceholders(q *proto.Query, values []string) *proto.Query {
+	return queryparser.ReplacePlaceholders(q, values)
+}
+
+func Walk(q *proto.Query, f func(e *proto.Query_Expression) bool) bool {
+	return queryparser.Walk(q, f)
+}
+
+func ToQuery(pbq *proto.Query) *updog.Query { return convert.ToQuery(pbq) }
+
+func ToProtobufResult(r *updog.Result, qid int32) *proto.Result {
+	return convert.ToProtobufResult(r, qid)
+}
+
+func ToResult(pr *proto.Result) *updog.Result { return convert.ToResult(pr) }
+
+func OpenFile(failIfExists, failIfDoesntExist bool) func(string, int, os.FileMode) (*os.File, error) {
+	return openfile.OpenFile(openfile.Options{FailIfFileExists: failIfExists, FailIfFileDoesntExist: failIfDoesntExist})
+}
